@@ -75,7 +75,7 @@ def check_cfg(ctx, fx, cfg):
         if not nexts:
             # the two next() futures may be raced inside an awaited helper that is lent the loop's two sources
             for hbi, ht in b.normal_calls():
-                h = fx.fn(ht.get("resolved") or ht.get("callee") or "")
+                h = fx.callee_fn(ht)
                 if h is None or not h.get("is_async"):
                     continue
                 hco = [c for c in fx.children_of(h["def"]) if c["kind"] == "coroutine"]
